@@ -1,3 +1,5 @@
+#[cfg(feature = "iggy_verif")]
+use iggy::verif::tokio;
 use crate::streaming::persistence::COMPONENT;
 use crate::streaming::utils::file;
 use error_set::ErrContext;
